@@ -1,18 +1,22 @@
 S = "simplify.py"
 E = "expr_container.py"
+
+_GUARD = ("                    if is_target != other_is_target or \\\n                            (is_target and other_is_target and\n"
+          "                             idx is not other_idx):\n                        continue\n")
+_ACCEPT = "            if not isinstance(term.sympy - sub_other_term, Add):\n                return sub"
+_ZERO = "            if sub_other_term is S.Zero and other_term.sympy is not S.Zero:\n                continue\n"
+
 WITNESSES = [
-    dict(id="c07-accept-without-test", prop="C07", file=S, expect="R07a",
-         old="            if not isinstance(term.sympy - sub_other_term, Add):\n                return sub", new="            return sub"),
-    dict(id="c07-zero-guard", prop="C07", file=S, expect="R07a",
-         old="            if sub_other_term is S.Zero and other_term.sympy is not S.Zero:\n                continue\n", new=""),
+    # ------------------------------------------------------------------ breaking edits (old set, rule ids kept)
+    dict(id="c07-accept-without-test", prop="C07", file=S, expect="R07a", old=_ACCEPT, new="            return sub"),
+    dict(id="c07-zero-guard", prop="C07", file=S, expect="R07a", old=_ZERO, new=""),
     dict(id="c07-test-wrong-term", prop="C07", file=S, expect="R07a",
          old="            if not isinstance(term.sympy - sub_other_term, Add):", new="            if not isinstance(term.sympy - other_term.sympy, Add):"),
     dict(id="c07-unordered", prop="C07", file=S, expect="R0",
          old="            sub = order_substitutions(sub)\n            sub_other_term", new="            sub = list(sub.items())\n            sub_other_term"),
-    dict(id="c07-target-mix", prop="C07", file=S, expect="R07b",
-         old="                    if is_target != other_is_target or \\\n                            (is_target and other_is_target and\n                             idx is not other_idx):\n                        continue\n", new=""),
+    dict(id="c07-target-mix", prop="C07", file=S, expect="R07b", old=_GUARD, new=""),
     dict(id="c07-target-swap-allowed", prop="C07", file=S, expect="R07b",
-         old="                    if is_target != other_is_target or \\\n                            (is_target and other_is_target and\n                             idx is not other_idx):", new="                    if is_target != other_is_target:"),
+         old=_GUARD, new="                    if is_target != other_is_target:\n                        continue\n"),
     dict(id="c07-direction", prop="C07", file=S, expect="R07b",
          old="                        extended_sub[other_idx] = idx", new="                        extended_sub[idx] = other_idx"),
     dict(id="c07-matched-missing", prop="C07", file=S, expect="R07c",
@@ -24,5 +28,155 @@ WITNESSES = [
     dict(id="c07-uplo", prop="C07", file=E, expect="R07e",
          old="                    if tensor.bra_ket_sym is S.Zero:\n                        pos = f\"{description}-{uplo}\"", new="                    if tensor.bra_ket_sym is not S.Zero:\n                        pos = f\"{description}-{uplo}\""),
     dict(id="c07-ok-rename", prop="C07", file=S, expect=None,
-         old="            if not isinstance(term.sympy - sub_other_term, Add):\n                return sub", new="            difference = term.sympy - sub_other_term\n            if not isinstance(term.sympy - sub_other_term, Add):\n                return sub"),
+         old=_ACCEPT, new="            difference = term.sympy - sub_other_term\n            if not isinstance(term.sympy - sub_other_term, Add):\n                return sub"),
+
+    # ------------------------------------------------------------------ breaking edits for the new checks
+    # acceptance table
+    dict(id="c07-accept-sum", prop="C07", file=S, expect="R07a",
+         old="            if not isinstance(term.sympy - sub_other_term, Add):", new="            if isinstance(term.sympy - sub_other_term, Add):"),
+    dict(id="c07-zero-guard-inverted", prop="C07", file=S, expect=["R07a", "R07b"],
+         old="            if sub_other_term is S.Zero and other_term.sympy is not S.Zero:", new="            if sub_other_term is not S.Zero and other_term.sympy is not S.Zero:"),
+    dict(id="c07-zero-guard-too-wide", prop="C07", file=S, expect="R07b",
+         old="            if sub_other_term is S.Zero and other_term.sympy is not S.Zero:", new="            if sub_other_term is S.Zero or other_term.sympy is not S.Zero:"),
+    dict(id="c07-return-unordered-map", prop="C07", file=S, expect=["R07a", "R08a"],
+         old="        for sub in sub_list:\n            sub = order_substitutions(sub)\n            sub_other_term = other_term.sympy.subs(sub)",
+         new="        for raw_sub in sub_list:\n            sub = raw_sub\n            sub_other_term = other_term.sympy.subs(order_substitutions(raw_sub))"),
+    dict(id="c07-first-map-only", prop="C07", file=S, expect="R07b",
+         old="                return sub\n        return None  # no valid sub dict -> return None", new="                return sub\n            break\n        return None  # no valid sub dict -> return None"),
+    # candidate maps
+    dict(id="c07-pattern-ignored", prop="C07", file=S, expect="R07b",
+         old="                    if pat == other_pat:\n                        matching_idx.append(other_idx)", new="                    matching_idx.append(other_idx)"),
+    dict(id="c07-shared-map-extended-in-place", prop="C07", file=S, expect=["R07b", "R07c"],
+         old="                        extended_sub = sub.copy()", new="                        extended_sub = sub"),
+    dict(id="c07-first-space-only", prop="C07", file=S, expect="R07b",
+         old="                sub_list = [other_sp_sub | sub for other_sp_sub, sub in\n                            product(sub_list, ov_sub_list)]",
+         new="                sub_list = [other_sp_sub for other_sp_sub, sub in\n                            product(sub_list, ov_sub_list)]"),
+    dict(id="c07-target-test-on-names", prop="C07", file=S, expect="R07b",
+         old="                    other_is_target = other_idx in target", new="                    other_is_target = is_target"),
+    # bookkeeping
+    dict(id="c07-matched-key-skipped", prop="C07", file=S, expect="R07c",
+         old="            if term_i in matched:  # term already mapped\n                continue\n\n            compatible_terms[term_i] = {}",
+         new="            compatible_terms[term_i] = {}"),
+    dict(id="c07-compare-neighbours-only", prop="C07", file=S, expect="R07c",
+         old="            for other_i in range(i+1, len(term_idx_list)):", new="            for other_i in range(i+1, min(i+2, len(term_idx_list))):"),
+    dict(id="c07-key-no-descriptions", prop="C07", file=S, expect="R07c",
+         old="        key = (length, tuple(sorted(descriptions)),", new="        key = (length,"),
+    dict(id="c07-key-no-shared-subspaces", prop="C07", file=S, expect="R07c",
+         old="               repeating_idx_sp(tensor_idx_list), pattern_key, target)", new="               pattern_key, target)"),
+    dict(id="c07-key-no-pattern-sizes", prop="C07", file=S, expect="R07c",
+         old="               repeating_idx_sp(tensor_idx_list), pattern_key, target)", new="               repeating_idx_sp(tensor_idx_list), target)"),
+    dict(id="c07-prefactor-counted", prop="C07", file=S, expect="R07c",
+         old="            if (descr := o.description()) == 'prefactor':\n                continue\n            elif", new="            descr = o.description()\n            if"),
+    dict(id="c07-pattern-without-targets", prop="C07", file=S, expect="R07c",
+         old="        pattern = term.pattern()", new="        pattern = term.pattern(include_target_idx=False)"),
+    dict(id="c07-terms-guard", prop="C07", file=S, expect="R07c",
+         old="    if not all(isinstance(term, e.Term) for term in terms):\n        raise Inputerror(\"Expected terms as a list of term Containers.\")\n", new=""),
+    # simplify
+    dict(id="c07-simplify-key-dropped", prop="C07", file=S, expect="R07c",
+         old="        res += terms[n]\n        for other_n", new="        for other_n"),
+    dict(id="c07-simplify-key-twice", prop="C07", file=S, expect="R07c",
+         old="            res += terms[other_n].subs(sub)", new="            res += terms[n].subs(sub)"),
+    dict(id="c07-simplify-unexpanded", prop="C07", file=S, expect="R07c",
+         old="    expr = expr.expand()\n\n    if len(expr) == 1:  # trivial: only a single term\n        return expr\n",
+         new="    if len(expr) == 1:  # trivial: only a single term\n        return expr\n\n    expr = expr.expand()\n"),
+    dict(id="c07-simplify-shortcut-two", prop="C07", file=S, expect="R07c",
+         old="    if len(expr) == 1:  # trivial: only a single term", new="    if len(expr) <= 2:  # trivial"),
+    dict(id="c07-simplify-guard", prop="C07", file=S, expect="R07c",
+         old="    if not isinstance(expr, e.Expr):\n        raise Inputerror(\"The expression to simplify needs to be provided as \"\n                         f\"{e.Expr} object.\")\n", new=""),
+    # fingerprints
+    dict(id="c07-descr-antisym-oriented", prop="C07", file=E, expect="R07e",
+         old="                    if base.bra_ket_sym is S.Zero:  # no bra ket symmetry", new="                    if base.bra_ket_sym is not S.One:  # no bra ket symmetry"),
+    dict(id="c07-descr-no-exponent", prop="C07", file=E, expect="R07e",
+         old="            if include_exponent:  # add exponent to description\n                descr += f\"-{exponent}\"", new="            pass"),
+    dict(id="c07-descr-no-name", prop="C07", file=E, expect="R07e",
+         old="            descr += f\"-{base.name}-{data_u}-{data_l}\"", new="            descr += f\"-{data_u}-{data_l}\""),
+    dict(id="c07-descr-targets-unsorted", prop="C07", file=E, expect="R07e",
+         old="                                f\"-{'-'.join(sorted([target_u, target_l]))}\"", new="                                f\"-{'-'.join([target_u, target_l])}\""),
+    dict(id="c07-descr-nonsym-target-position", prop="C07", file=E, expect="R07e",
+         old="                target_str = \"\".join(s.name + str(i) for i, s in\n                                     enumerate(self.idx) if s in target)",
+         new="                target_str = \"\".join(s.name for i, s in\n                                     enumerate(self.idx) if s in target)"),
+    dict(id="c07-pos-no-neighbour-targets", prop="C07", file=E, expect="R07e",
+         old="                        if neighbour_target:\n                            pos += f\"-{''.join(neighbour_target)}\"", new="                        pass"),
+    dict(id="c07-pos-no-neighbour-spaces", prop="C07", file=E, expect="R07e",
+         old="                        pos += f\"-{neighbour_data}\"", new="                        pass"),
+    dict(id="c07-pos-nonsym-position", prop="C07", file=E, expect="R07e",
+         old="                ret[s].append(f\"{description}_{i}\")", new="                ret[s].append(f\"{description}\")"),
+    dict(id="c07-pos-lower-dropped", prop="C07", file=E, expect="R07e",
+         old="                    {'u': tensor.upper, 'l': tensor.lower}.items():", new="                    {'u': tensor.upper}.items():"),
+    dict(id="c07-pattern-unsorted", prop="C07", file=E, expect="R07e",
+         old="                pattern[ov][s] = sorted(pat)", new="                pattern[ov][s] = list(pat)"),
+    dict(id="c07-pattern-by-space-only", prop="C07", file=E, expect="R07e",
+         old="                key = s.space_and_spin\n                if key not in pattern:", new="                key = s.space\n                if key not in pattern:"),
+    dict(id="c07-pattern-no-coupling", prop="C07", file=E, expect="R07e",
+         old="                    pattern[key][s].extend((p + c for p in pos))", new="                    pattern[key][s].extend((p for p in pos))"),
+    dict(id="c07-coupling-self", prop="C07", file=E, expect="R07e",
+         old="                if i == other_i:\n                    continue\n                matches = [idx for idx in idx_pos", new="                matches = [idx for idx in idx_pos"),
+    dict(id="c07-coupling-own-positions", prop="C07", file=E, expect="R07e",
+         old="                    [p for s in matches for p in other_idx_pos[s]]", new="                    [p for s in matches for p in idx_pos[s]]"),
+    dict(id="c07-pattern-flags-not-forwarded", prop="C07", file=E, expect="R07e",
+         old="            positions = o.crude_pos(include_target_idx=include_target_idx,\n                                    include_exponent=include_exponent)",
+         new="            positions = o.crude_pos(include_target_idx=False,\n                                    include_exponent=include_exponent)"),
+
+    # ------------------------------------------------------------------ behaviour-preserving edits of new kinds
+    # operands of the difference exchanged (the test asks only whether it is a sum)
+    dict(id="c07-ok-difference-reversed", prop="C07", file=S, expect=None,
+         old="            if not isinstance(term.sympy - sub_other_term, Add):", new="            if not isinstance(sub_other_term - term.sympy, Add):"),
+    # commuted conjunction in the spurious-zero guard
+    dict(id="c07-ok-zero-guard-commuted", prop="C07", file=S, expect=None,
+         old="            if sub_other_term is S.Zero and other_term.sympy is not S.Zero:", new="            if other_term.sympy is not S.Zero and sub_other_term is S.Zero:"),
+    # acceptance loop restructured: reject-branches as continue, accept at the end of the body
+    dict(id="c07-ok-accept-restructured", prop="C07", file=S, expect=None,
+         old=_ZERO + "            # diff (or sum) is a single term (no Add obj)\n            # can either sum up to 0 or to a single term with a different pref\n            # -> check for type of result and not for result value\n" + _ACCEPT,
+         new="            spurious = other_term.sympy is not S.Zero and sub_other_term is S.Zero\n            if spurious or isinstance(term.sympy - sub_other_term, Add):\n                continue\n            return sub"),
+    # itertools.product replaced by explicit nested loops
+    dict(id="c07-ok-product-as-loops", prop="C07", file=S, expect=None,
+         old="                    for sub, other_idx in product(ov_sub_list, matching_idx):\n                        # other_idx is already mapped onto another idx\n                        if other_idx in sub:\n                            continue\n                        # copy the sub_dict to avoid inplace modification\n                        extended_sub = sub.copy()\n                        extended_sub[other_idx] = idx\n                        new_ov_sub_list.append(extended_sub)",
+         new="                    for sub in ov_sub_list:\n                        for other_idx in matching_idx:\n                            if other_idx not in sub:\n                                new_ov_sub_list.append({**sub, other_idx: idx})"),
+    # redundant early rejection removed: a map that assigns an index twice overwrites its entry, stays incomplete and is
+    # removed by the completeness filter anyway
+    dict(id="c07-ok-redundant-injectivity-test", prop="C07", file=S, expect=None,
+         old="                        if other_idx in sub:\n                            continue\n", new=""),
+    # target membership through a set built once
+    dict(id="c07-ok-target-set", prop="C07", file=S, expect=None,
+         edits=[("        sub_list: list[dict] = []\n        for ov, idx_pattern in pattern.items():", "        sub_list: list[dict] = []\n        target_set = set(target)\n        for ov, idx_pattern in pattern.items():"),
+                ("                is_target = idx in target\n", "                is_target = idx in target_set\n"),
+                ("                    other_is_target = other_idx in target\n", "                    other_is_target = other_idx in target_set\n")]),
+    # bookkeeping of matched terms in a list instead of a set, guard inverted into a nested block
+    dict(id="c07-ok-matched-list", prop="C07", file=S, expect=None,
+         edits=[("        matched = set()\n", "        matched = []\n"),
+                ("                    matched.add(other_term_i)", "                    matched.append(other_term_i)")]),
+    # prefilter key: components reordered and nested differently
+    dict(id="c07-ok-key-reordered", prop="C07", file=S, expect=None,
+         old="        key = (length, tuple(sorted(descriptions)),\n               repeating_idx_sp(tensor_idx_list), pattern_key, target)",
+         new="        key = ((target, pattern_key), repeating_idx_sp(tensor_idx_list),\n               (tuple(sorted(descriptions)), length))"),
+    # prefilter classes in a plain dict with setdefault instead of a defaultdict
+    dict(id="c07-ok-plain-dict-classes", prop="C07", file=S, expect=None,
+         edits=[("    filtered_terms = defaultdict(list)\n", "    filtered_terms = {}\n"),
+                ("        filtered_terms[key].append(term_i)", "        filtered_terms.setdefault(key, []).append(term_i)")]),
+    # simplify: summands collected first, added afterwards; shortcut written as '< 2'
+    dict(id="c07-ok-simplify-collect", prop="C07", file=S, expect=None,
+         edits=[("    if len(expr) == 1:  # trivial: only a single term", "    if len(expr) < 2:  # trivial: only a single term"),
+                ("        res += terms[n]\n        for other_n, sub in matches.items():\n            res += terms[other_n].subs(sub)",
+                 "        summands = [terms[n]]\n        for other_n, sub in matches.items():\n            summands.append(terms[other_n].subs(sub))\n        for summand in summands:\n            res += summand")]),
+    # description: bra-ket symmetry compared by value, branches exchanged
+    dict(id="c07-ok-descr-sym-by-value", prop="C07", file=E, expect=None,
+         old="                    if base.bra_ket_sym is S.Zero:  # no bra ket symmetry", new="                    if base.bra_ket_sym == 0:  # no bra ket symmetry"),
+    # description: sorted pair via min/max
+    dict(id="c07-ok-descr-minmax", prop="C07", file=E, expect=None,
+         old="                                f\"-{'-'.join(sorted([target_u, target_l]))}\"",
+         new="                                f\"-{min(target_u, target_l)}-{max(target_u, target_l)}\""),
+    # crude_pos: neighbours by position instead of identity, dict of lists via defaultdict-free get
+    dict(id="c07-ok-neighbours-by-position", prop="C07", file=E, expect=None,
+         edits=[("                for s in idx_tpl:\n                    # space (upper/lower) in which the tensor occurs", "                for n_s, s in enumerate(idx_tpl):\n                    # space (upper/lower) in which the tensor occurs"),
+                ("                    neighbours = [i for i in idx_tpl if i is not s]", "                    neighbours = idx_tpl[:n_s] + idx_tpl[n_s + 1:]")]),
+    # coupling: list.count instead of a Counter
+    dict(id="c07-ok-coupling-count", prop="C07", file=E, expect=None,
+         old="            if descr_counter[descr] < 2:", new="            if descriptions.count(descr) < 2:"),
+    # pattern: suffix concatenated through join, sorted on a copy
+    dict(id="c07-ok-pattern-join", prop="C07", file=E, expect=None,
+         edits=[("                    pattern[key][s].extend((p + c for p in pos))", "                    pattern[key][s].extend(\"\".join((p, c)) for p in pos)"),
+                ("                pattern[ov][s] = sorted(pat)", "                pattern[ov][s] = sorted(list(pat), reverse=False)")]),
+    # pattern: a different (but fixed) separator between position and coupling - the fingerprint partition is unchanged
+    dict(id="c07-ok-pattern-separator", prop="C07", file=E, expect=None,
+         old="            c = f\"_{'_'.join(sorted(coupl[i]))}\" if i in coupl else None", new="            c = f\"|{'|'.join(sorted(coupl[i]))}\" if i in coupl else None"),
 ]
